@@ -14,11 +14,23 @@ preceded by a virtual delay:
                                        toQueue | timeout | transferring | incomplete | complete (download initialisation: the
                                        file connection is delivered, breaks -> INCOMPLETE, or delivers everything);
                                        poke=True requests a cycle in the same step (cycle between task end and callback)
+    ['addFailed', u, dt]               a download in FAILED state without a fail reason, added the way `read_cache` adds a
+                                       cached one: `_get_queued_transfers` retries it with remote-queue attempts
     ['preq', k, dt]                    the peer sends PeerTransferRequest for download k
-    ['call', k, abort|pause|remove, poke_after|None, dt]   the call runs as its own task; a cycle request is made
-                                       `poke_after` loop iterations later (i.e. while the call waits for its tasks)
+    ['call', k, abort|pause|remove, poke_after|None, during?, dt]   the call runs as its own task; a cycle request is made
+                                       `poke_after` loop iterations later (i.e. while the call waits for its tasks);
+                                       `during` (optional) = [[kind, n], ...]: kind in poke | preq | peerfail | upfail is
+                                       delivered for transfer k `n` loop iterations after the call started, i.e. in the same
+                                       step as / while the call is suspended (or just after it returned)
     ['requeue', k, dt] ['wait', dt]
     ['peerfail', k, dt]                the peer answers PeerTransferQueueFailed for download k (`state.fail(reason)`, cancels nothing)
+    ['upfail', k, dt]                  the peer sends PeerUploadFailed for download k (`remotely_queued = False` + cycle request)
+    ['block'|'unblock', u, dt] ['unshare'|'reshare', k, dt]   the user changes the block list / the shares: the real
+                                       `manage_shares_changed` re-evaluates every upload (monitor-only cases, no model)
+
+Case options: `teardown` = loop iterations a CANCELLED network step needs to unwind, `exec_delay` = loop iterations an
+executor call (aiofiles: removal of the local file under the state lock, ...) takes; both widen the window between the
+cancellation and the return of the call.
 
 After the last op the loop runs for 120 virtual seconds (observation window).  Cycles, task first
 steps / ends / done-callbacks and call returns are logged where they happen and fed to the Lean
@@ -34,7 +46,7 @@ from vlib import common, simloop
 from vlib.common import KResult, Violation, Disagreement, Property
 
 FIELDS = ('state', 'remotely_queued', 'queue_attempts', 'bytes_transfered', 'local_path', 'fail_reason', 'abort_reason',
-          'start_time', 'complete_time')
+          'start_time', 'complete_time', 'filesize')
 WINDOW = 120.0
 
 
@@ -44,7 +56,7 @@ def _user(u: int) -> str:
 
 def _fields(t) -> list:
     return [t.state.VALUE.name, t.remotely_queued, t.queue_attempts, t.bytes_transfered, t.local_path, t.fail_reason,
-            t.abort_reason, t.start_time, t.complete_time]
+            t.abort_reason, t.start_time, t.complete_time, t.filesize]
 
 
 class _Run:
@@ -54,7 +66,7 @@ class _Run:
         from vlib.xferrig import Rig
         self.loop = loop
         self.case = case
-        self.rig = Rig(loop, slots=case.get('slots', 3))
+        self.rig = Rig(loop, slots=case.get('slots', 3), teardown=case.get('teardown', 0))
         self.mgr = self.rig.mgr
         self.ev: list = []                  # events for the model, in order
         self.task_k: dict[str, int] = {}    # task name -> transfer index
@@ -64,6 +76,7 @@ class _Run:
         self.pending_call: dict[int, str] = {}
         self.quiet: dict[int, bool] = {}
         self.calls: list = []
+        self.initialized: set = set()       # names of initialisation tasks whose `state.initialize()` was granted
         self.snaps: list = []               # (event index, snapshot string, per-transfer fields, live map)
         self._wrap()
 
@@ -114,6 +127,10 @@ class _Run:
                         ctx = rig.task_ctx.get(asyncio.current_task())
                         g = rig.gate(*ctx) if ctx else None
                         out = 'ok' if (g is not None and g.outcomes.get('send') == 'ok') else 'fail'
+                    elif name.startswith('initialize-download-') and name not in self.initialized \
+                            and asyncio.current_task() not in rig.task_ctx:
+                        # `state.initialize()` was refused and the task ended without a network step of its own
+                        out = 'refused'
                     else:
                         st = transfer.state.VALUE.name
                         out = {'QUEUED': 'toQueue', 'COMPLETE': 'complete', 'INCOMPLETE': 'incomplete'}.get(st, 'fail')
@@ -136,6 +153,14 @@ class _Run:
                     tk = transfer._transfer_task
                     if tk is not None:
                         run.ev.append(('tend', tk.get_name(), 'transferring'))
+                if new.name == 'INITIALIZING':
+                    run.initialized.add(asyncio.current_task().get_name())
+                if new.name == 'ABORTED':
+                    k = run.rig.k_of(transfer)
+                    if run.pending_call.get(k) == 'remove':
+                        # the abort inside remove() got through: in the same step remove() takes the transfer off the
+                        # list and cancels whatever the slots hold by now
+                        run.ev.append(('rmid', k))
 
         self._listener = Listener()
 
@@ -169,6 +194,42 @@ class _Run:
                                               FakeConn(rig, _user(body[1])))
             self.adopt(mgr.transfers[-1])
             self.ev.append(('addUpload',))
+            return
+        if kind == 'addFailed':
+            # what `TransferManager.read_cache` does with a cached download that failed without a reason
+            from aioslsk.transfer.model import Transfer, TransferDirection
+            from aioslsk.transfer.state import TransferState
+            t = Transfer(_user(body[1]), f'f{len(rig.transfers)}', TransferDirection.DOWNLOAD)
+            t.state = TransferState.init_from_state(TransferState.FAILED, t)
+            t = await mgr.add(t)
+            self.adopt(t)
+            self.ev.append(('addFailed',))
+            return
+        if kind in ('block', 'unblock'):
+            from aioslsk.events import BlockListChangedEvent
+            from aioslsk.user.model import BlockingFlag
+            u = _user(body[1])
+            blocked = rig.settings.users.blocked
+            old = blocked.get(u, BlockingFlag.NONE)
+            if kind == 'block':
+                blocked[u] = BlockingFlag.UPLOADS
+            else:
+                blocked.pop(u, None)
+            new = blocked.get(u, BlockingFlag.NONE)
+            self.ev.append(('shares', kind, [i for i, x in enumerate(rig.transfers) if x.username == u and x.is_upload()],
+                            len(rig.log)))
+            await rig.bus.emit(BlockListChangedEvent({u: (old, new)}))
+            return
+        if kind in ('unshare', 'reshare'):
+            from aioslsk.events import ScanCompleteEvent
+            k = body[1]
+            if k >= len(rig.transfers):
+                return
+            t = rig.transfers[k]
+            (rig.unshared.add if kind == 'unshare' else rig.unshared.discard)(t.remote_path)
+            self.ev.append(('shares', kind, [i for i, x in enumerate(rig.transfers)
+                                             if x.remote_path == t.remote_path and x.is_upload()], len(rig.log)))
+            await rig.bus.emit(ScanCompleteEvent(0, 0))
             return
         k = body[1]
         if k >= len(rig.transfers):
@@ -234,14 +295,22 @@ class _Run:
             self.ev.append(('preq', k, new, len(rig.log)))
             return
         if kind == 'peerfail':
-            # a legitimate peer message; not injected while a call on k waits (stale-state dispatch is C03)
-            if not t.is_download() or t not in mgr.transfers or k in self.pending_call:
+            # a legitimate peer message.  While a call on k holds the state lock the handler's `state.fail()` waits for
+            # it (and then dispatches on the state the call left, C03); the event is logged when the handler is through
+            if not t.is_download() or t not in mgr.transfers:
                 return
             from aioslsk.protocol.messages import PeerTransferQueueFailed
             before = t.state.VALUE.name
             await mgr._on_peer_transfer_queue_failed(
                 PeerTransferQueueFailed.Request(filename=t.remote_path, reason='File not shared.'), FakeConn(rig, t.username))
             self.ev.append(('peerfail', k, before, t.state.VALUE.name, len(rig.log)))
+            return
+        if kind == 'upfail':
+            if not t.is_download() or t not in mgr.transfers:
+                return
+            from aioslsk.protocol.messages import PeerUploadFailed
+            await mgr._on_peer_upload_failed(PeerUploadFailed.Request(filename=t.remote_path), FakeConn(rig, t.username))
+            self.ev.append(('upfail', k, len(rig.log)))
             return
         if kind == 'requeue':
             if t not in mgr.transfers or t.state.VALUE.name not in ('ABORTED', 'PAUSED', 'COMPLETE', 'INCOMPLETE', 'FAILED'):
@@ -253,7 +322,8 @@ class _Run:
             self.ev.append(('requeue', k, len(rig.log)))
             return
         if kind == 'call':
-            _, _k, c, poke_after = body
+            _, _k, c, poke_after = body[:4]
+            during = body[4] if len(body) > 4 else []
             if k in self.pending_call or t not in mgr.transfers:
                 return
 
@@ -280,9 +350,20 @@ class _Run:
                     await asyncio.sleep(0)
                 await self.poke()
 
+            async def deliver(what, n):
+                for _ in range(n):
+                    await asyncio.sleep(0)
+                if what == 'poke':
+                    await self.poke()
+                else:
+                    self.ev.append(('op', what))
+                    await self.perform([what, k])
+
             self.calls.append(asyncio.ensure_future(do_call()))
             if poke_after is not None:
                 self.calls.append(asyncio.ensure_future(poker(poke_after)))
+            for what, n in during:
+                self.calls.append(asyncio.ensure_future(deliver(what, n)))
             return
         raise ValueError(f'bad op {body!r}')
 
@@ -315,7 +396,8 @@ class _Run:
                 return 'N' if task is None else ('D' if task.done() else 'L')
             lock = {'abort': 'A', 'pause': 'P', 'remove': 'R'}.get(self.pending_call.get(k), '-')
             removed = 0 if t in self.mgr.transfers else 1
-            ents.append(f"{k}:{t.state.VALUE.name}:rq{int(bool(t.remotely_queued))}:a{t.queue_attempts}:"
+            retry = int(t.is_download() and t.state.VALUE.name == 'FAILED' and t.fail_reason is None)
+            ents.append(f"{k}:{t.state.VALUE.name}:r{retry}:rq{int(bool(t.remotely_queued))}:a{t.queue_attempts}:"
                         f"Q{sl(t._remotely_queue_task)}:T{sl(t._transfer_task)}:{lock}:{removed}:"
                         f"q{int(bool(self.quiet.get(k)))}:live{len(live.get(k, []))}")
         self.snaps.append({'at': len(self.ev), 'log_at': len(self.rig.log), 'snap': ' '.join(ents),
@@ -370,7 +452,7 @@ def _run_impl(case: dict, wall: float = WALL) -> dict:
         return {'ev': [list(e) for e in run.ev], 'snaps': run.snaps, 'log': [list(e) for e in run.rig.log],
                 'granularity': run.rig.granularity, 'stop_left': left}
 
-    res, loop = _guarded_run(main, wall)
+    res, loop = _guarded_run(main, wall, case.get('exec_delay', 0))
     res['loop_exceptions'] = [e for e in loop.exceptions if e.get('type') not in (None, 'CancelledError')]
     return res
 
@@ -381,10 +463,38 @@ class _Guard(KeyboardInterrupt):
     out of `run_until_complete`."""
 
 
-def _guarded_run(main, wall: float):
+class _SlowExecLoop(simloop.SimLoop):
+    """SimLoop whose executor calls (aiofiles: exists / remove / open / write) still run inline but hand their result
+    over `exec_delay` loop iterations later, the way a thread pool does: code that awaits them is really suspended
+    (e.g. `abort()` removing the local file while it holds the state lock)."""
+
+    exec_delay = 0
+
+    def run_in_executor(self, executor, func, *args):
+        fut = super().run_in_executor(executor, func, *args)
+        if not self.exec_delay:
+            return fut
+        out = self.create_future()
+
+        def hop(n):
+            if out.done():
+                return
+            if n > 0:
+                self.call_soon(hop, n - 1)
+            elif fut.exception() is not None:
+                out.set_exception(fut.exception())
+            else:
+                out.set_result(fut.result())
+
+        self.call_soon(hop, self.exec_delay - 1)
+        return out
+
+
+def _guarded_run(main, wall: float, exec_delay: int = 0):
     """`simloop.run` with a repeating alarm that also gets out of busy loops inside sub-tasks and inside clean-up."""
     import signal
-    loop = simloop.SimLoop()
+    loop = _SlowExecLoop()
+    loop.exec_delay = exec_delay
     asyncio.set_event_loop(loop)
 
     def on_alarm(signum, frame):
@@ -499,9 +609,16 @@ def _script(impl: dict) -> tuple[list[str], list[Optional[str]], list[str]]:
         elif tag == 'tend':
             if e[1] in tid:
                 lines.append(f'tend {tid[e[1]]} {e[2]}')
-                want.append(None)
-        elif tag in ('addDownload', 'addUpload'):
+                # how the task ended must be what the model expects: cancelled / refused (inert) / on its own
+                want.append('end=' + (e[2] if e[2] in ('cancelled', 'refused') else 'normal'))
+        elif tag in ('addDownload', 'addUpload', 'addFailed'):
             lines.append(tag)
+            want.append(None)
+        elif tag == 'rmid':
+            lines.append(f'rmid {e[1]}')
+            want.append(None)
+        elif tag == 'upfail':
+            lines.append(f'upfail {e[1]}')
             want.append(None)
         elif tag == 'call':
             lines.append(f'call {e[1]} {e[2]}')
@@ -579,7 +696,13 @@ def _monitor(case: dict, impl: dict) -> list[Violation]:
         end = len(ev)
         for j in range(i + 1, len(ev)):
             x = ev[j]
-            if x[0] in ('requeue', 'call', 'preq', 'peerfail') and x[1] == k:
+            # the window ends at the next user / peer action on k.  A change of the block list / the shares is a user
+            # action on the uploads it covers, EXCEPT for an upload the user aborted (the user's abort is not undone by
+            # blocking / unblocking the peer or unsharing / resharing the file) or removed
+            if x[0] in ('requeue', 'call', 'preq', 'peerfail', 'upfail') and x[1] == k:
+                end = j
+                break
+            if x[0] == 'shares' and k in x[2] and c == 'pause':
                 end = j
                 break
         # task activity for k inside (i, end)
@@ -594,7 +717,7 @@ def _monitor(case: dict, impl: dict) -> list[Violation]:
             if x[0] == 'cycle' and any(kk == k for kk, _n in x[1]):
                 add('C06-task-created-after-return', f'a cycle created a task for transfer {k} after {c} returned',
                     {'event': x[:2], 'at_event': j}, 'nothing happens until a re-queue')
-            if x[0] == 'tend' and x[1] in names and x[2] not in ('cancelled',):
+            if x[0] == 'tend' and x[1] in names and x[2] not in ('cancelled', 'refused'):
                 add('C06-activity-after-return', f'task {x[1]} of transfer {k} ran to its end ({x[2]}) after {c} returned',
                     {'at_event': j}, 'all of it was cancelled')
         # network activity on behalf of k between the return and the next user / peer action on k
@@ -709,6 +832,160 @@ def _gen_case(rng: random.Random, max_ops: int = 12) -> dict:
         else:
             ops.append(['wait', rng.choice([0.05, 0.3, 31.0, 61.0])])
     return {'ops': ops, 'kind': profile, 'slots': rng.choice([1, 2, 3])}
+
+
+def _during(rng: random.Random, is_download: bool, p_preq: float = 0.5, hi: int = 6) -> list:
+    """peer events / cycle requests delivered 0..hi loop iterations after a call started"""
+    evs = []
+    if is_download:
+        if rng.random() < p_preq:
+            evs.append(['preq', rng.randrange(0, hi)])
+        if rng.random() < 0.15:
+            evs.append(['peerfail', rng.randrange(0, hi)])
+        if rng.random() < 0.15:
+            evs.append(['upfail', rng.randrange(0, hi)])
+    if rng.random() < 0.35:
+        evs.append(['poke', rng.randrange(0, hi)])
+    return evs
+
+
+def _gen_window_case(rng: random.Random, max_ops: int = 8) -> dict:
+    """Families that aim at the window between the cancellation and the return of abort / pause / remove:
+    something for the transfer arrives (peer request, peer refusal, PeerUploadFailed, management cycle) in the same step
+    as the call or 0..5 loop iterations later, for every call kind, from every state in which the handlers / the cycle
+    would create a task (QUEUED, INCOMPLETE with / without a live retry, FAILED without a reason that is being retried,
+    both slots occupied); cancelled network steps take 0..3 iterations to unwind, executor calls 0..2."""
+    profile = rng.choice(['peer-during-call', 'peer-during-call', 'peer-during-call', 'failed-retry', 'failed-retry',
+                          'shares', 'shares'])
+    DT = [0, 0.05, 0.05, 0.1, 0.3, 0.3]
+    case = {'kind': profile, 'slots': rng.choice([1, 2, 3]), 'teardown': rng.choice([0, 0, 1, 2, 3]),
+            'exec_delay': rng.choice([0, 0, 0, 1, 2])}
+    ops: list[list] = []
+    if profile == 'peer-during-call':
+        n = rng.randint(1, 3)
+        ops += [['addDownload', 0, 0] for _ in range(n)]
+        k0 = rng.randrange(n)
+        setup = rng.choice(['queued', 'queued', 'incomplete-retry', 'incomplete-idle', 'queued-remotely', 'both-slots'])
+        if setup in ('incomplete-retry', 'incomplete-idle'):
+            # through to DOWNLOADING, the file connection breaks: INCOMPLETE; the next cycle starts the retry
+            ops += [['net', k0, 'ok', False, 0.3], ['preq', k0, 0.3], ['net', k0, 'incomplete', False, 0.3]]
+            if setup == 'incomplete-idle':
+                ops.append(['net', k0, 'ok', False, 0.3])             # retry delivered: remotely queued, nothing in flight
+                case['exec_delay'] = rng.choice([1, 2, 3])           # the only suspension of the call: removing the file
+        elif setup == 'queued-remotely':
+            ops.append(['net', k0, 'ok', False, 0.3])
+        elif setup == 'both-slots':
+            ops.append(['preq', k0, 0.3])
+        c = rng.choice(['abort', 'abort', 'pause', 'pause', 'remove'])
+        ops.append(['call', k0, c, rng.choice([None, None, 0, 1, 2, 3]), _during(rng, True, 0.9), rng.choice([0.05, 0.3])])
+        # whatever survived gets its network steps through; long enough for the 60 s file-connection timeout
+        ops.append(['net', k0, rng.choice(['ok', 'transferring', 'complete', 'timeout']), rng.random() < 0.3, rng.choice(DT)])
+        ops.append(['net', k0, 'ok', False, rng.choice(DT)])
+        if rng.random() < 0.4:
+            ops.append(['requeue', k0, rng.choice([0.3, 61.0])])
+            ops.append(['call', k0, rng.choice(['abort', 'pause', 'remove']), rng.choice([None, 0, 1, 2]),
+                        _during(rng, True, 0.7), rng.choice(DT)])
+            ops.append(['net', k0, 'ok', False, rng.choice(DT)])
+        for _ in range(rng.randint(0, max_ops - 4)):
+            k = rng.randrange(n)
+            r = rng.random()
+            if r < 0.3:
+                ops.append(['call', k, rng.choice(['abort', 'pause', 'remove']), rng.choice([None, 0, 1, 2, 3]),
+                            _during(rng, True), rng.choice(DT)])
+            elif r < 0.5:
+                ops.append(['net', k, rng.choice(['ok', 'fail-conn', 'transferring', 'incomplete']), rng.random() < 0.3,
+                            rng.choice(DT)])
+            elif r < 0.6:
+                ops.append(['preq', k, rng.choice(DT)])
+            elif r < 0.7:
+                ops.append(['upfail', k, rng.choice(DT)])
+            elif r < 0.8:
+                ops.append(['poke', rng.choice(DT)])
+            else:
+                ops.append(['wait', rng.choice([0.3, 61.0])])
+    elif profile == 'failed-retry':
+        n = rng.randint(1, 3)
+        for i in range(n):
+            ops.append(['addFailed' if (i == 0 or rng.random() < 0.6) else 'addDownload', 0, 0])
+        k0 = 0
+        r = rng.random()
+        if r < 0.25:
+            ops.append(['net', k0, 'fail-conn', rng.random() < 0.5, 0.3])      # attempt fails: FAILED -> QUEUED, next one hangs
+        elif r < 0.4:
+            ops.append(['net', k0, 'ok', False, 0.3])                         # delivered: FAILED + remotely queued
+            if rng.random() < 0.5:
+                ops.append(['preq', k0, 0.3])                                 # the peer re-queues it: initialisation hangs
+        elif r < 0.5:
+            ops.append(['poke', 0.3])
+        c = rng.choice(['remove', 'remove', 'remove', 'abort', 'pause'])
+        ops.append(['call', k0, c, rng.choice([0, 1, 2, 3, 4, 5]), _during(rng, True, 0.4), rng.choice([0.05, 0.3])])
+        ops.append(['net', k0, rng.choice(['ok', 'ok', 'fail-conn']), rng.random() < 0.3, rng.choice(DT)])
+        for _ in range(rng.randint(0, max_ops - 4)):
+            k = rng.randrange(n)
+            r = rng.random()
+            if r < 0.35:
+                ops.append(['call', k, rng.choice(['remove', 'remove', 'abort', 'pause']), rng.choice([None, 0, 1, 2, 3, 4]),
+                            _during(rng, True, 0.4), rng.choice(DT)])
+            elif r < 0.6:
+                ops.append(['net', k, rng.choice(['ok', 'fail-conn', 'fail-write']), rng.random() < 0.4, rng.choice(DT)])
+            elif r < 0.7:
+                ops.append(['preq', k, rng.choice(DT)])
+            elif r < 0.8:
+                ops.append(['poke', rng.choice(DT)])
+            elif r < 0.9:
+                ops.append(['requeue', k, rng.choice(DT)])
+            else:
+                ops.append(['wait', rng.choice([0.3, 31.0])])
+    else:
+        # block list / shares changes after (and around) a call on an upload: monitor-only, the library's own
+        # abort / re-queue of uploads in `manage_shares_changed` is C08's model
+        case['model'] = False
+        npeers = rng.randint(1, 2)
+        dirs, users = [], []
+        for p in range(npeers):
+            for _ in range(rng.randint(1, 2)):
+                d = 'U' if rng.random() < 0.8 else 'D'
+                ops.append(['addUpload' if d == 'U' else 'addDownload', p, 0])
+                dirs.append(d)
+                users.append(p)
+        n = len(dirs)
+        ups = [i for i, d in enumerate(dirs) if d == 'U'] or [0]
+        k0 = rng.choice(ups)
+        r = rng.random()
+        if r < 0.3:
+            ops.append(['net', k0, 'transferring', False, 0.3])
+        elif r < 0.45:
+            ops.append(['net', k0, 'toQueue', True, 0.3])
+        ops.append(['call', k0, rng.choice(['abort', 'abort', 'abort', 'pause', 'remove']), rng.choice([None, 0, 1, 2]),
+                    [], rng.choice([0.05, 0.3])])
+        toggles = [('block', 'unblock', users[k0]), ('unshare', 'reshare', k0)]
+        for _ in range(rng.randint(1, 3)):
+            a, b, arg = rng.choice(toggles)
+            ops.append([a, arg, rng.choice([0.1, 0.3, 5.0])])
+            if rng.random() < 0.3:
+                ops.append(['poke', rng.choice(DT)])
+            if rng.random() < 0.85:
+                ops.append([b, arg, rng.choice([0.1, 0.3, 5.0])])
+            if rng.random() < 0.5:
+                ops.append(['net', k0, rng.choice(['transferring', 'toQueue', 'complete']), False, rng.choice([0.3, 1.0])])
+        for _ in range(rng.randint(0, max_ops - 4)):
+            k = rng.randrange(n)
+            r = rng.random()
+            if r < 0.3:
+                ops.append(['call', k, rng.choice(['abort', 'pause', 'remove']), rng.choice([None, 0, 1, 2]), [],
+                            rng.choice(DT)])
+            elif r < 0.6:
+                a, b, arg = rng.choice([('block', 'unblock', users[k]), ('unshare', 'reshare', k)])
+                ops.append([rng.choice([a, b]), arg, rng.choice(DT)])
+            elif r < 0.75:
+                ops.append(['net', k, rng.choice(['transferring', 'toQueue', 'complete', 'fail']), False, rng.choice(DT)])
+            elif r < 0.85:
+                ops.append(['requeue', k, rng.choice(DT)])
+            else:
+                ops.append(['wait', rng.choice([0.3, 31.0])])
+    ops.append(['wait', 1.0])
+    case['ops'] = ops
+    return case
 
 
 DIRECTED = [
